@@ -1282,9 +1282,6 @@ class Traph(object):
             node, page_report = self.__add_page(lru, crawled=crawled)
             report += page_report
 
-            node.flag_as_crawled()
-            node.write()
-
         return report
 
     def add_links(self, links):
